@@ -69,6 +69,27 @@ Theorem C01_SolveMatrix_residual :
 Proof. exact solve_residual_DR. Qed.
 Print Assumptions C01_SolveMatrix_residual.
 
+(* the composed wiring mesh -> vectors -> influence matrix, right-hand side -> residual *)
+Theorem C01_VLMStates_chain_to_residual :
+  forall (npx npy : nat) (sym left : bool) (Al Be V : R -> R) (M : R -> nat -> nat -> nat -> R)
+    (C : R -> nat -> R) (t0 : R) (al be v : dual R) (m : nat -> nat -> nat -> dual R) 
+    (c : nat -> dual R),
+  DR Al t0 al ->
+  DR Be t0 be ->
+  DR V t0 v ->
+  DR3 M t0 m ->
+  DR1 C t0 c ->
+  (0 < npy)%nat ->
+  (forall i j : nat, (i < npx)%nat -> (j < npy)%nat -> 0 < sq3 (g_ncross (M t0) i j)) ->
+  (forall b e i j : nat, ring_ok npx (fun t : R => chain_vectors npx npy sym left (M t)) t0 b e i j) ->
+  (forall b e j : nat, trail_ok npx Al (fun t : R => chain_vectors npx npy sym left (M t)) t0 b e j) ->
+  forall p : nat,
+  (p < npx * npy)%nat ->
+  DR (fun t : R => chain_residual npx npy sym left (Al t) (Be t) (V t) (M t) (C t) p) t0
+    (chain_residual npx npy sym left al be v m c p).
+Proof. exact chain_residual_DR. Qed.
+Print Assumptions C01_VLMStates_chain_to_residual.
+
 Theorem C01_HorseshoeCirculations :
   forall (npy : nat) (Ci : R -> nat -> nat -> R) (t0 : R) (ci : nat -> nat -> dual R) (i j : nat),
   DR2 Ci t0 ci -> DR (fun t : R => horseshoe npy (Ci t) i j) t0 (horseshoe npy ci i j).
@@ -95,11 +116,4 @@ Theorem C01_PanelForces :
   DR (fun t : R => panel_force (Rho t) (Hs t) (Ve t) (Bv t) p d) t0 (panel_force rho hs ve bv p d).
 Proof. exact panel_force_DR. Qed.
 Print Assumptions C01_PanelForces.
-
-Theorem C01_LiftDrag_lift :
-  forall (np : nat) (sym : bool) (A : R -> R) (F : R -> nat -> nat -> R) (t0 : R) (a : dual R)
-    (f : nat -> nat -> dual R),
-  DR A t0 a -> DR2 F t0 f -> DR (fun t : R => lift np sym (A t) (F t)) t0 (lift np sym a f).
-Proof. exact lift_DR. Qed.
-Print Assumptions C01_LiftDrag_lift.
 
